@@ -386,6 +386,8 @@ class RealBusModel(BusModel):
                      for c in (True, False)]           # SIZE[1] fits into the rounded-up tail of the non power-of-two SIZE[3]
         self.base += [("io", *M["IO"][0]), ("io", *M["IO"][1])]
         self.base += [("master", False, False), ("master", False, True), ("master", True, False)]
+        # anonymous masters get the automatic name "master<count>"; an explicit name of that form may already own it
+        self.base += [("master", "anon", False), ("master", "auto", False)]
         self.exprs = {}
 
     def params(self):
@@ -415,7 +417,13 @@ class RealBusModel(BusModel):
             self.IF = self.new_if()
             return BusModel.step(self, ctx, call, idx)
         _, reuse, with_region = call
-        name = list(h.masters)[0] if reuse else f"m{idx + 1}"
+        if reuse == "anon":
+            name, reuse = None, False
+        elif reuse == "auto":
+            name, reuse = f"master{len(h.masters) + 1}", False       # the name the anonymous request after the next one would get
+            reuse = name in h.masters
+        else:
+            name = list(h.masters)[0] if reuse else f"m{idx + 1}"
         region = soc.SoCRegion(origin=0x1000, size=0x1000) if with_region else None
         m = self.new_if()
         ctx.last = dict(name=name, reused=reuse, call=call, nmasters=len(h.masters))
@@ -423,7 +431,8 @@ class RealBusModel(BusModel):
 
     def jcall(self, call):
         if call[0] == "master":
-            return ["add_master", "reused-name" if call[1] else "new-name", "region=0x1000+0x1000" if call[2] else "region=None"]
+            return ["add_master", {True: "reused-name", False: "new-name", "anon": "name=None", "auto": "name=master<count+1>"}[call[1]],
+                    "region=0x1000+0x1000" if call[2] else "region=None"]
         return BusModel.jcall(self, call)
 
     def check_call(self, ctx, call, idx, ret, before):
@@ -433,7 +442,7 @@ class RealBusModel(BusModel):
         viol = []
         if L["reused"]:
             viol.append(dict(rule="name.reuse", msg=f"add_master under the already granted name {L['name']!r} was accepted"))
-        elif len(h.masters) != L["nmasters"] + 1 or L["name"] not in h.masters:
+        elif len(h.masters) != L["nmasters"] + 1 or (L["name"] is not None and L["name"] not in h.masters):
             viol.append(dict(rule="master.not_registered", msg="add_master returned but the master was not added exactly once"))
         return viol
 
